@@ -194,4 +194,7 @@ func allTypedHelpers() {
 	typedHelpers(spell.Complex)
 	typedHelpers(spell.Pointers)
 	typedHelpers(spell.Int8)
+	typedHelpers(spell.AnyAlike)
+	typedHelpers(spell.StringAlike)
+	typedHelpers(spell.FloatAlike)
 }
